@@ -111,3 +111,34 @@ Theorem C16_sim_case8_cb_correct : forall c reuse strip s0 s1 il iv,
   | _, _ => False
   end.
 Proof. exact KV.Proofs.LogicSimGlue.sim_case8_cb_correct. Qed.
+
+(** ---- source tie of the callback protocol (round 3): the callback statement of all three loop copies of LogicSim.c_prop that have one is
+    translated from the CURRENT source (translate/gen_logicsim_drivers.py -> Gen/LogicSimDriversSrc.v): which name is compared with
+    len(self.circuit.lines) (the op row's output FIELD, bound before the c_locs re-mapping), which Line object and which view are handed
+    over, whether `inject_cb is not None` is tested.  For every op row, any chain, any memory and any callback: one iteration with a
+    callback = the same iteration without, then -- iff the op's output index is a circuit line -- the callback is shown that line and the view of
+    c[c_locs[o0]], and what it leaves there is stored; hence the call sequence is exactly the op outputs that are circuit lines, in op order. *)
+From Coq Require Import ZArith.
+From KV Require Import Gen.SimTables Model.LogicSimModel Model.SimOps.
+From KV Require Import Model.WaveDrvPrelude Model.LogicSimDrvPrelude Gen.LogicSimDriversSrc.
+From KV Require Proofs.LogicSimDriversProofs Proofs.LogicSimDriversCb.
+Theorem C16_callback_loop_structure : forall L, (L = loop_cprop2_cb \/ L = loop_cprop4 \/ L = loop_cprop8) ->
+  forall mdim locs nl t0 t1 f,
+  (forall M tr o, iter_src mdim L locs nl t0 t1 (Some f) (M, tr) (KV.Proofs.LogicSimDriversProofs.row_of o) =
+     let M1 := fst (iter_src mdim L locs nl t0 t1 None (M, tr) (KV.Proofs.LogicSimDriversProofs.row_of o)) in
+     let lo := zrd (-1)%Z locs (Z.of_nat (s_out o)) in
+     if Nat.ltb (s_out o) nl then (mwr M1 lo (f (s_out o) (mrd mdim M1 lo)), (tr ++ [(s_out o, mrd mdim M1 lo)])%list) else (M1, tr)) /\
+  (forall ops M, map fst (snd (run_loop mdim L locs nl t0 t1 (Some f) (map KV.Proofs.LogicSimDriversProofs.row_of ops) M))
+                 = filter (fun k => Nat.ltb k nl) (map s_out ops)).
+Proof. exact KV.Proofs.LogicSimDriversCb.callback_loop_structure. Qed.
+
+(* m == 2: memory and call sequence of the translated callback loop = c_prop_cb / cb_lines of the compared model, for every SimOps result
+   with allocated, known ops and locations inside the memory (all three hold for every build() result: C01_model_build_conditions,
+   KV.Proofs.LogicSimDriversProofs.build_ops_located) and every callback (f on planes, cb on values, related lane-wise) *)
+Theorem C16_callback_loop_source_is_model : forall so m t0 t1 f cb,
+  KV.Proofs.LogicSimDriversProofs.ops_located so -> KV.Proofs.LogicSimGlue.ops_known so -> KV.Proofs.LogicSimGlue.locs_ok so (List.length m) ->
+  KV.Proofs.LogicSimDriversProofs.cb_rel2 f cb ->
+  let r := run_loop 1 loop_cprop2_cb (so_locs so) (so_nlines so) t0 t1 (Some f) (map KV.Proofs.LogicSimDriversProofs.row_of (so_ops so))
+                    (map KV.Proofs.LogicSimDriversProofs.emb2 m) in
+  fst r = map KV.Proofs.LogicSimDriversProofs.emb2 (c_prop_cb false sem2 cb so m) /\ map fst (snd r) = cb_lines so.
+Proof. exact KV.Proofs.LogicSimDriversProofs.cprop2_cb_source_is_model. Qed.
